@@ -4,7 +4,7 @@
     byte-string fields.  Both the Go harness and this file follow the same field layout, so
     the OCaml driver contains no per-function glue at all. *)
 From Coq Require Import Strings.String.
-From PatVerif Require Import Base.GoSem Model.Quicwire.
+From PatVerif Require Import Base.GoSem Model.Quicwire Model.Codecs Model.BatchCodecs.
 Open Scope N_scope.
 
 Definition nm (s : string) : list byte := list_byte_of_string s.
@@ -43,5 +43,122 @@ Definition dispatch_quicwire (name : list byte) (a : list (list byte)) : option 
   else if is name "append_varint_bytes" then Some (out_res_bytes (append_varint_bytes (arg a 0) (arg a 1)))
   else None.
 
+(** * Codecs *)
+Definition num1 (n : N) : list byte := be_enc 1 n.
+Definition num2 (n : N) : list byte := be_enc 2 n.
+Definition out_token (o : option token) : list (list byte) :=
+  match o with
+  | Some t => [st_ok; num2 (t_type t); t_nonce t; t_ctx t; t_keyid t; t_auth t]
+  | None => [st_none]
+  end.
+Definition mk_token (a : list (list byte)) (i : nat) : token :=
+  {| t_type := narg a i; t_nonce := arg a (i+1); t_ctx := arg a (i+2); t_keyid := arg a (i+3); t_auth := arg a (i+4) |}.
+
+(** histories on one request object.  Each op is one argument: "M" | "U" ++ data | "S" ++ fields
+    (S = construct a fresh object holding the given value).  Output: M -> bytes; U -> ok flag then
+    the value fields; S -> nothing. *)
+Section Hist.
+  Context {A : Type} (enc : A -> list byte) (um : A -> list byte -> bool * A)
+          (show : A -> list (list byte)) (parse : list byte -> A).
+  Fixpoint run_hist (o : obj A) (ops : list (list byte)) : list (list byte) :=
+    match ops with
+    | [] => []
+    | op :: rest =>
+      match op with
+      | c :: data =>
+        if byte_eqb c x4d (* M *) then
+          let '(b, o') := marshal enc o in b :: run_hist o' rest
+        else if byte_eqb c x55 (* U *) then
+          let '(ok, o') := unmarshal um o data in
+          (if ok then st_ok else st_none) :: show (val o') ++ run_hist o' rest
+        else if byte_eqb c x53 (* S *) then
+          run_hist {| raw := None; val := parse data |} rest
+        else [st_unknown]
+      | [] => [st_unknown]
+      end
+    end.
+End Hist.
+
+Definition show12 (r : breq) : list (list byte) := [num1 (q_keyid r); q_blinded r].
+Definition parse12 (d : list byte) : breq :=
+  match d with k :: b => {| q_keyid := b2n k; q_blinded := b |} | [] => fresh_breq end.
+Definition show3 (r : req3) : list (list byte) := [q3_key r; q3_nkid r; q3_enc r; q3_sig r].
+(* S-data for type 3: u16p key ++ u16p nkid ++ u16p enc ++ sig *)
+Definition parse3 (d : list byte) : req3 :=
+  match read_u16_prefixed d with
+  | Some (k, d1) =>
+    match read_u16_prefixed d1 with
+    | Some (n, d2) =>
+      match read_u16_prefixed d2 with
+      | Some (e, sg) => {| q3_key := k; q3_nkid := n; q3_enc := e; q3_sig := sg |}
+      | None => {| q3_key := []; q3_nkid := []; q3_enc := []; q3_sig := [] |}
+      end
+    | None => {| q3_key := []; q3_nkid := []; q3_enc := []; q3_sig := [] |}
+    end
+  | None => {| q3_key := []; q3_nkid := []; q3_enc := []; q3_sig := [] |}
+  end.
+Definition show5 (r : req5) : list (list byte) := [num1 (q5_keyid r); nat8 (length (q5_elems r)); concat (q5_elems r)].
+(* S-data for type 5: keyid ++ concatenation of 32-byte elements *)
+Definition parse5 (d : list byte) : req5 :=
+  match d with
+  | k :: b => {| q5_keyid := b2n k; q5_elems := chunks32 (Nat.div (length b) 32) b |}
+  | [] => {| q5_keyid := 0; q5_elems := [] |}
+  end.
+Definition show_inner (r : inner) : list (list byte) := [num1 (in_keyid r); in_blinded r; in_padded r].
+(* S-data for inner: keyid ++ u16p blinded ++ padded *)
+Definition parse_inner (d : list byte) : inner :=
+  match d with
+  | k :: d1 =>
+    match read_u16_prefixed d1 with
+    | Some (m, p) => {| in_keyid := b2n k; in_blinded := m; in_padded := p |}
+    | None => {| in_keyid := b2n k; in_blinded := []; in_padded := [] |}
+    end
+  | [] => {| in_keyid := 0; in_blinded := []; in_padded := [] |}
+  end.
+
+Fixpoint parse_bitems (a : list (list byte)) : list bitem :=
+  match a with
+  | t :: k :: b :: rest => (be_dec t, {| q_keyid := be_dec k; q_blinded := b |}) :: parse_bitems rest
+  | _ => []
+  end.
+Definition show_bitems (l : list bitem) : list (list byte) :=
+  concat (map (fun it : bitem => [num2 (fst it); num1 (q_keyid (snd it)); q_blinded (snd it)]) l).
+Fixpoint parse_typed (a : list (list byte)) : list (N * list byte) :=
+  match a with t :: r :: rest => (be_dec t, r) :: parse_typed rest | _ => [] end.
+
+Definition dispatch_codecs (name : list byte) (a : list (list byte)) : option (list (list byte)) :=
+  if is name "dec_token" then Some (out_token (dec_token (N.to_nat (narg a 0)) (arg a 1)))
+  else if is name "enc_token" then Some [st_ok; enc_token (mk_token a 0)]
+  else if is name "auth_input" then Some [st_ok; auth_input (mk_token a 0)]
+  else if is name "dec_challenge" then
+    Some (match dec_challenge (arg a 0) with
+          | Some c => st_ok :: num2 (c_type c) :: c_issuer c :: c_nonce c :: c_origin c
+          | None => [st_none] end)
+  else if is name "enc_challenge" then
+    Some (out_res_bytes (marshal_challenge
+            {| c_type := narg a 0; c_issuer := arg a 1; c_nonce := arg a 2; c_origin := skipn 3 a |}))
+  else if is name "hist_req1" then
+    Some (run_hist (enc_req12 1) (um_req12 1 ne1) show12 parse12 {| raw := None; val := fresh_breq |} a)
+  else if is name "hist_req2" then
+    Some (run_hist (enc_req12 2) (um_req12 2 ne2) show12 parse12 {| raw := None; val := fresh_breq |} a)
+  else if is name "hist_req3" then
+    Some (run_hist enc_req3 um_req3 show3 parse3 {| raw := None; val := parse3 [] |} a)
+  else if is name "hist_req5" then
+    Some (run_hist enc_req5 um_req5 show5 parse5 {| raw := None; val := parse5 [] |} a)
+  else if is name "hist_inner" then
+    Some (run_hist enc_inner um_inner show_inner parse_inner {| raw := None; val := parse_inner [] |} a)
+  else if is name "dec_encap" then
+    Some (match dec_encap (fun _ _ => negb (bytes_eqb (arg a 1) [x00])) (arg a 0) with
+          | Some k => [st_ok; enc_encap k; num1 (e_id k); num2 (e_kem k); e_pk k; num2 (e_kdf k); num2 (e_aead k)]
+          | None => [st_none] end)
+  else if is name "dec_batch" then
+    Some (match dec_batch (arg a 0) with Some l => st_ok :: show_bitems l | None => [st_none] end)
+  else if is name "enc_batch" then Some [st_ok; enc_batch (parse_bitems a)]
+  else if is name "dec_resps" then
+    Some (match dec_resps (arg a 0) with Some l => st_ok :: nat8 (length l) :: l | None => [st_none] end)
+  else if is name "enc_resps_typed" then Some [st_ok; enc_resps_typed (parse_typed a)]
+  else None.
+
 Definition dispatch (name : list byte) (a : list (list byte)) : list (list byte) :=
-  match dispatch_quicwire name a with Some r => r | None => [st_unknown] end.
+  match dispatch_quicwire name a with Some r => r | None =>
+  match dispatch_codecs name a with Some r => r | None => [st_unknown] end end.
